@@ -151,10 +151,50 @@ def _threaded(n_prod, n_cons, cap, per_prod, fail_at, batch, stop_after, timeout
   return received, ends, alive
 
 
+def _late_producer(delay):
+  """piter_multiplex over a fast input and one whose iterator takes `delay` seconds to open (so that its producer registers
+  after the first one has finished): the consumer must still get both inputs and both return values."""
+  from concurrent import futures
+  def fast():
+    yield from ('a0', 'a1', 'a2')
+    return 'ret-a'
+  class SlowToOpen:
+    def __iter__(self):
+      time.sleep(delay)
+      return self._gen()
+    def _gen(self):
+      yield from ('b0', 'b1', 'b2')
+      return 'ret-b'
+  pool = futures.ThreadPoolExecutor(max_workers=2)
+  q = iter_utils.piter_multiplex([fast(), SlowToOpen()], thread_pool=pool, buffer_size=0)
+  received, stop_args, done = [], [], threading.Event()
+  def consume():
+    it = iter(q)
+    try:
+      while True:
+        received.append(next(it))
+    except StopIteration as e:
+      stop_args.extend(e.args)
+    except Exception as e:   # pylint: disable=broad-exception-caught
+      stop_args.append(repr(e))
+    done.set()
+  threading.Thread(target=consume, daemon=True).start()
+  finished = done.wait(timeout=20)
+  pool.shutdown(wait=False)
+  return finished, received, stop_args
+
+
 def bounded_queue_threads(p):
   S = Search(p, dict(producers='1-3', consumers='1-2', capacity='0,1,2', batch='get / get_batch(2)', failure='none / producer 0 at element 1',
                      early_stop='none / after 2', repeats='3 (10 thorough) sampled schedules'), exhaustive=False)
   reps = 10 if S.thorough() else 3
+  for delay in (0.0, 0.3):
+    finished, received, stop_args = _late_producer(delay)
+    ok = (finished and sorted(received) == ['a0', 'a1', 'a2', 'b0', 'b1', 'b2'] and [x for x in received if x[0] == 'a'] == ['a0', 'a1', 'a2']
+          and [x for x in received if x[0] == 'b'] == ['b0', 'b1', 'b2'] and sorted(stop_args) == ['ret-a', 'ret-b'])
+    if not S.check(ok, dict(what='piter_multiplex with a producer that registers late', open_delay=delay),
+                   f'two inputs, the second takes {delay}s to open: consumer finished={finished}, received {received}, end-of-stream carried {stop_args}', cls=f'late-producer-{delay}'):
+      return S.result()
   for n_prod, n_cons, cap, batch, fail_at, stop_after in itertools.product((1, 2, 3), (1, 2), (0, 1, 2), (0, 2), (None, 1), (None, 2)):
     if fail_at is not None and stop_after is not None:
       continue
